@@ -154,7 +154,8 @@ fn history(ctx: &mut Ctx, fl: Flavor) {
     }
     let nops = match ctx.tier {
         crate::ctx::Tier::Slice => 6,
-        _ => ctx.rng.range(3, 24),
+        // rarely: hundreds of operations on one object
+        _ => if ctx.rng.chance(1, 60) { ctx.rng.range(150, 400) } else { ctx.rng.range(3, 24) },
     };
     let mut ops: Vec<J> = Vec::new();
     let mut backward = false;
@@ -219,16 +220,21 @@ fn history(ctx: &mut Ctx, fl: Flavor) {
             }
             4..=8 => {
                 // ---------------- apply(n), staying inside the keystream
-                let mut n = match ctx.rng.below(6) {
+                let w = ctx.cfg.par.max(1);
+                let mut n = match ctx.rng.below(9) {
                     0 => 0,
                     1 => 1,
                     2 => b - 1,
                     3 => b,
                     4 => b + 1,
+                    // whole backend batches (+ tail) in one call
+                    5 => w * b + ctx.rng.below(b),
+                    6 => (2 * w + 1) * b + ctx.rng.below(b),
+                    7 if ctx.rng.chance(1, 20) => 66 * b + 3,
                     _ => ctx.rng.range(0, 5 * b),
                 };
-                n = n.min(room).min(wl::MAX_BYTES);
-                let (data, _) = wl::data(&mut ctx.rng, n);
+                n = n.min(room).min(wl::MAX_LONG_BYTES);
+                let (data, _) = mode_data(ctx, n);
                 let form = *ctx.rng.pick(&FORMS3);
                 let fill = *ctx.rng.pick(&ALL_FILLS);
                 let pre = fill.make(&mut ctx.rng, &data, n);
@@ -309,7 +315,14 @@ fn history(ctx: &mut Ctx, fl: Flavor) {
                 }
                 sh = sh.add(n, b);
             }
-            _ => {}
+            _ => {
+                // continue on a clone (where the type is Clone): position and keystream carry over
+                if let Ok(Some(c)) = guard(|| obj.clone_box()) {
+                    obj = c;
+                    ops.push(J::s("clone; continue on the clone"));
+                    ctx.st.count("clone-op");
+                }
+            }
         }
         if !check_pos(ctx, &name, obj.as_ref(), sh, b) {
             return;
